@@ -698,6 +698,11 @@ class World:
         if self.cfg["digest"] < 8 or self.cfg["gc"] != "exact":
             return
         k = self.idkey(o)
+        if any(x is not o and type(x) is type(o) and x.content_id == o.content_id and x.origin == o.origin for x in U.M.HOOK_SINK):
+            # a twin made by a user callback DURING this very operation (it sits in the sink, not yet adopted): the
+            # node was not created "while no registered node has the same class, origin, content"
+            self.stats.probes["twin_created_by_callback"] += 1
+            return
         if pre.get(k, 0) or siblings.get(k, 0) > 1:
             self.stats.probes["twin_created"] += 1
             if _SUFFIX.match(o.id):
